@@ -45,6 +45,7 @@ package gossipval
 //@   opt noalloc
 //@   ensures (err != nil) == gv_head_err(gvver)
 //@   ensures err == nil ==> epc == gv_head_epc(gvver) && state == gv_head_state(gvver) && epc != nil && state != nil
+//@   ensures wellformed: err == nil ==> epc.CurrentEpoch != nil && epc.ValidatorPubkeyCache != nil
 
 //@ func (b VoluntaryExitValBackend) SeenExit(index) r
 //@   trusted
@@ -62,7 +63,9 @@ package gossipval
 //@ func ValidateVoluntaryExit(ctx, volExit, exitVal) res
 //@   property C12
 //@   requires volExit != nil && exitVal != nil
-//@   assigns ghost(gvver), ghost(n_mark_exit), ghost(last_mark_exit)
+//@   requires caches: forall r PcPtr :: {pctrig(r)} pctrig(r) && alloc(r) ==> pc_local(r.pub2idx, r.idx2pub, r.trustedParentCount) && pc_chain(r.parent, r, r.trustedParentCount, r.parent.trustedParentCount, len(r.parent.idx2pub))
+//@   requires nolocks: forall r PcPtr :: {held(r.rwLock)} held(r.rwLock) == 0
+//@   assigns ghost(gvver), ghost(n_mark_exit), ghost(last_mark_exit), heap(CachedPubkey.decompressed)
 //@   ensures accept: res.Result == ACCEPT <==> (!gv_seen_exit(old(gvver), volExit.Message.ValidatorIndex) && !gv_head_err(old(gvver)) && exit_ok(gv_spec(exitVal), gv_head_epc(old(gvver)), gv_head_state(old(gvver)), *volExit))
 //@   ensures reject: res.Result == REJECT ==> !gv_seen_exit(old(gvver), volExit.Message.ValidatorIndex) && !gv_head_err(old(gvver)) && !exit_ok(gv_spec(exitVal), gv_head_epc(old(gvver)), gv_head_state(old(gvver)), *volExit)
 //@   ensures marks: n_mark_exit == old(n_mark_exit) + ite(res.Result == ACCEPT, 1, 0) && (res.Result == ACCEPT ==> last_mark_exit == volExit.Message.ValidatorIndex) && (res.Result != ACCEPT ==> gvver == old(gvver))
@@ -82,7 +85,9 @@ package gossipval
 //@ func ValidateProposerSlashing(ctx, propSl, propSlVal) res
 //@   property C12
 //@   requires propSl != nil && propSlVal != nil
-//@   assigns ghost(gvver), ghost(n_mark_pslash), ghost(last_mark_pslash)
+//@   requires caches: forall r PcPtr :: {pctrig(r)} pctrig(r) && alloc(r) ==> pc_local(r.pub2idx, r.idx2pub, r.trustedParentCount) && pc_chain(r.parent, r, r.trustedParentCount, r.parent.trustedParentCount, len(r.parent.idx2pub))
+//@   requires nolocks: forall r PcPtr :: {held(r.rwLock)} held(r.rwLock) == 0
+//@   assigns ghost(gvver), ghost(n_mark_pslash), ghost(last_mark_pslash), heap(CachedPubkey.decompressed)
 //@   ensures accept: res.Result == ACCEPT <==> (!gv_seen_pslash(old(gvver), propSl.SignedHeader1.Message.ProposerIndex) && !gv_head_err(old(gvver)) && pslash_ok(gv_spec(propSlVal), gv_head_epc(old(gvver)), gv_head_state(old(gvver)), *propSl))
 //@   ensures reject: res.Result == REJECT ==> !pslash_nosig_ok(gv_spec(propSlVal), *propSl) || (!gv_seen_pslash(old(gvver), propSl.SignedHeader1.Message.ProposerIndex) && !gv_head_err(old(gvver)) && !pslash_ok(gv_spec(propSlVal), gv_head_epc(old(gvver)), gv_head_state(old(gvver)), *propSl))
 //@   ensures marks: n_mark_pslash == old(n_mark_pslash) + ite(res.Result == ACCEPT, 1, 0) && (res.Result == ACCEPT ==> last_mark_pslash == propSl.SignedHeader1.Message.ProposerIndex) && (res.Result != ACCEPT ==> gvver == old(gvver))
